@@ -25,6 +25,9 @@ mod convert;
 mod packet;
 mod server;
 mod socket;
+#[cfg(rs_tftpd_verif)]
+#[doc(hidden)]
+pub mod verif;
 mod window;
 mod worker;
 
